@@ -102,8 +102,7 @@ def r1_funnel(run, w):
 
 
 def _r1_site(run, w, R1, fn, site, schema, overrides):
-  H.require(w, "useractions.UserActions._prepare_formula_renames",
-            "useractions.UserActions._do_doc_action")
+  H.require(w, "useractions.UserActions._do_doc_action")
   run = H.Guarded(run, site.view, keep=KEEP)
   cfg = fn.cfg
   q = fn.qualname
@@ -512,7 +511,7 @@ def _is_call_to(e, *names):
 def r3_positions(run, w):
   R3 = run.rule("C16-R3", "each rename patch spans [pos, pos+len(old name)) of the formula the "
                 "name was found in; producer and consumer agree on the tuple layout", floor=8)
-  fn = H.xfn(w, "useractions.UserActions._prepare_formula_renames", keep=KEEP)
+  fn = H.xfn(w, H.role_anchors(w)["formula_renamer"].qualname, keep=KEEP)
   v = H.View(fn)
   run = H.Guarded(run, v, keep=KEEP)
   q = fn.qualname
@@ -736,7 +735,6 @@ def r4_unindent(run, w):
     fields = [e.value for e in node.args[1].elts if isinstance(e, ast.Constant)]
   if fields != ["start", "end", "old_text", "new_text"]:
     raise AnalysisError("textbuilder.Patch fields changed: %s" % (fields,))
-  H.require(w, "codebuilder._multiline_string_nodes", "codebuilder._do_make_formula_body")
   fn = H.xfn(w, "codebuilder.make_formula_body", keep=KEEP)
   v = H.View(fn)
   run = H.Guarded(run, v, keep=KEEP)
@@ -758,11 +756,15 @@ def r4_unindent(run, w):
   for (n, c, b) in un:
     loops = v.enclosing_loops(n.stmt)
     outer = loops[0]
+    it_call = v.x(outer.iter)
+    cb_mod = w.repo.module("codebuilder")
+    gen = cb_mod.functions.get(dotted(it_call.func)) if isinstance(it_call, ast.Call) else None
     ok_loop = isinstance(outer, ast.For) and isinstance(outer.target, ast.Name) and \
-        _is_call_to(v.x(outer.iter), "_multiline_string_nodes")
+        gen is not None and any(isinstance(y, (ast.Yield, ast.YieldFrom))
+                                for y in walk_no_nested(gen.node))
     if not ok_loop:
       raise AnalysisError("%s: unindent patches are not built in a loop over "
-                          "_multiline_string_nodes(...)" % q)
+                          "the generator of multi-line string nodes" % q)
     nodev = outer.target.id
     atok = v.t(v.x(outer.iter).args[0]) if v.x(outer.iter).args else None
     old_t, new_t = v.t(b["old_text"]), v.res(b["new_text"])
@@ -796,6 +798,24 @@ def r4_unindent(run, w):
            x.func.attr == "append" and isinstance(x.func.value, ast.Name)]
     if len(app) == 1:
       lists.add(app[0].func.value.id)
+  # a list of patches may be handed on: other.extend(lst) / other += lst / other = lst
+  grew = True
+  while grew:
+    grew = False
+    for (n2, c2, nm2) in fn.calls():
+      if isinstance(c2.func, ast.Attribute) and c2.func.attr == "extend" and \
+          isinstance(c2.func.value, ast.Name) and len(c2.args) == 1 and \
+          isinstance(v.alias_root(c2.args[0]), ast.Name) and \
+          v.alias_root(c2.args[0]).id in lists and c2.func.value.id not in lists:
+        lists.add(c2.func.value.id)
+        grew = True
+    for n2 in fn.cfg.nodes:
+      s2 = n2.stmt
+      if n2.kind == "stmt" and isinstance(s2, ast.AugAssign) and isinstance(s2.op, ast.Add) and \
+          isinstance(s2.target, ast.Name) and isinstance(v.alias_root(s2.value), ast.Name) and \
+          v.alias_root(s2.value).id in lists and s2.target.id not in lists:
+        lists.add(s2.target.id)
+        grew = True
   ok = False
   for c in reps:
     b = H.bind_args(c, ("in_builder", "patches"))
@@ -808,7 +828,7 @@ def r4_unindent(run, w):
          "ASTText(<builder>.get_text())", "the positions of the patches are positions in the "
          "text they are applied to", ok, fi=fn.fi)
   # the formula enters the builder chain exactly as it is stored
-  fb = w.fn("codebuilder._do_make_formula_body")
+  fb = w.fn_of(_formula_wrapper(w))
   bv = H.View(fb)
   fps = fb.fi.params()
   formula, assoc = fps[0], fps[2]
@@ -843,6 +863,21 @@ def r4_unindent(run, w):
                         "(one expected)" % (fb.qualname, n_txt))
 
 
+def _formula_wrapper(w):
+  """The function that wraps the stored formula into the first builder: it calls
+  textbuilder.Text(<its parameter>, <its parameter>) (today: _do_make_formula_body)."""
+  mod = w.repo.module("codebuilder")
+  cands = []
+  for fi in mod.functions.values():
+    ps = set(fi.params())
+    for c in calls_in(fi.node.body):
+      if endswith(dotted(c.func), "textbuilder.Text") and len(c.args) == 2 and \
+          all(isinstance(a, ast.Name) and a.id in ps for a in c.args):
+        cands.append(fi)
+  return H._pick(cands, "_do_make_formula_body",
+                 "codebuilder: the function that wraps the formula text into a builder")
+
+
 def _range_start_of(v, name, at, nodev):
   """name is bound by unpacking component 0 of <atok>.get_text_range(<string node>) (or by
   indexing it with [0])."""
@@ -857,12 +892,12 @@ def _range_start_of(v, name, at, nodev):
   if isinstance(t, (ast.Tuple, ast.List)) and t.elts and isinstance(t.elts[0], ast.Name) and \
       t.elts[0].id == name.id:
     return isinstance(val, ast.Call) and isinstance(val.func, ast.Attribute) and \
-        val.func.attr == "get_text_range" and len(val.args) == 1 and text(val.args[0]) == nodev
+        val.func.attr == "get_text_range" and len(val.args) == 1 and v.t(val.args[0]) == nodev
   if isinstance(t, ast.Name) and isinstance(val, ast.Subscript) and \
       isinstance(val.slice, ast.Constant) and val.slice.value == 0:
     c = v.res(val.value)
     return isinstance(c, ast.Call) and isinstance(c.func, ast.Attribute) and \
-        c.func.attr == "get_text_range" and len(c.args) == 1 and text(c.args[0]) == nodev
+        c.func.attr == "get_text_range" and len(c.args) == 1 and v.t(c.args[0]) == nodev
   return False
 
 
